@@ -107,9 +107,19 @@ def mech(kind, w, design=None):
     return "explicit-module-name-on-one-of-two-identical-instances-leaves-a-module-undefined"
   if kind == "output-differs-from-pymtl-simulation":
     if literal_branch_ifexp_meets_int_semantics(src): return "ifexp-with-literal-branch-evaluates-to-python-int-in-simulation"
+    if loopvar_modulo_index(src): return "loop-variable-arithmetic-in-index-evaluated-at-index-width"
     if const_only_nonring_subexpr(src): return "const-subexpression-narrowed-before-nonring-operator"
     if duplicate_class_names(src): return "same-class-name-and-params-share-one-module"
   return None
+
+
+def loopvar_modulo_index(src):
+  """the design indexes with ( <loop variable> +|-|* <number> ) % <number> inside a for loop: python computes it on unbounded ints,
+  the emitted text at the width of the index (the rotate / permute idiom of F-T19)"""
+  for m in re.finditer(r"for (\w+) in range\(", src):
+    if re.search(r"\[\s*\(\s*%s\s*[-+*]\s*\d+\s*\)\s*%%\s*\d+\s*\]" % re.escape(m.group(1)), src):
+      return True
+  return False
 
 
 PROBES = {
@@ -122,6 +132,15 @@ class Top(Component):
     def up():
       s.out @= s.in_ + (N >> 1)
       s.o2 @= s.in_ < (N % 3)
+""", "Top"),
+ "F-T19": ("""from pymtl3 import *
+class Top(Component):
+  def construct(s):
+    s.in_ = [InPort(8) for _ in range(6)]; s.o = [OutPort(8) for _ in range(6)]
+    @update
+    def up():
+      for i in range(6):
+        s.o[i] @= s.in_[(i + 4) % 6]
 """, "Top"),
  "F-T6": ("""from pymtl3 import *
 class Top(Component):
